@@ -122,7 +122,7 @@ def run_random(rep, prop, tier, seed, layouts, count=None, gen_args=None, tag=No
     else:
         common.pvh(["gen", count, seed, path] + (gen_args or []), exe_name="pvh_machine")
     programs = common.read_ndjson(path)
-    results = mc.run_programs(programs, layouts, seed, tag)
+    results = mc.run_programs(programs, layouts, seed, tag, split=True)
     lines, where, direct = build_trace(programs, results)
     for i in direct:
         x = results[i]["results"][0]
@@ -163,6 +163,14 @@ def run_random(rep, prop, tier, seed, layouts, count=None, gen_args=None, tag=No
                     sig = " rejected" + (" " + codes if codes else "") + (" panic=" + "-".join(str(x["panic"]).split()[:4]) if x.get("panic") else "")
                 elif "stdout" not in x:
                     sig = " crash"
+                if x.get("split"):
+                    # the same declarations split over lib.pn (everything but main, marked pub) and main.pn (imports it)
+                    rep.violation("random-split", "program seed=%d index=%d :: split%s" % (seed, i, sig),
+                                  {"problem": "the program split over two files does not behave like the single file",
+                                   "canonical": {"stdout": base["stdout"], "exit": base.get("exit")},
+                                   "variant": {k: x.get(k) for k in ("stdout", "exit", "rejected", "diags", "crash", "panic")},
+                                   "source": r["source"], "variant_source": x.get("source")})
+                    continue
                 rep.violation("random-layout", "program seed=%d index=%d :: layout%s" % (seed, i, sig),
                               {"problem": "formatting / comments / parentheses changed the result",
                                "canonical": {"stdout": base["stdout"], "exit": base.get("exit")},
